@@ -9,7 +9,6 @@ from harness import core
 ID = 'C12'
 TITLE = 'Summary tables are exact group-bys of their source'
 PROPS = ['Props/C12']
-DISABLED = True
 
 
 def G():
